@@ -2,6 +2,9 @@ package main
 
 import (
 	"go/token"
+	"go/types"
+	"sort"
+	"strings"
 
 	"golang.org/x/tools/go/ssa"
 )
@@ -274,3 +277,84 @@ func dominatingHeader(b *ssa.BasicBlock) *ssa.BasicBlock {
 
 // faName is the name of the field a FieldAddr selects.
 func faName(fa *ssa.FieldAddr) string { return fieldName(fa.X.Type(), fa.Field) }
+
+// localHelpers returns the unexported functions of fn's package that fn calls statically and that
+// nothing else in the package calls or takes as a value (a block of fn's code moved into a helper).
+// With sameRecv, only methods on fn's own receiver are returned, so that `$r` reads the same in both.
+func (c *Ctx) localHelpers(fn *ssa.Function, sameRecv bool) map[*ssa.Function]ssa.CallInstruction {
+	out := map[*ssa.Function]ssa.CallInstruction{}
+	if fn.Pkg == nil {
+		return out
+	}
+	cand := map[*ssa.Function]ssa.CallInstruction{}
+	for _, b := range fn.Blocks {
+		for _, in := range b.Instrs {
+			ci, ok := in.(ssa.CallInstruction)
+			if !ok {
+				continue
+			}
+			g := ci.Common().StaticCallee()
+			if g == nil || g == fn || g.Pkg != fn.Pkg || g.Parent() != nil || exported(g.Name()) || len(g.Blocks) == 0 {
+				continue
+			}
+			if sameRecv {
+				if g.Signature.Recv() == nil || fn.Signature.Recv() == nil || !types.Identical(g.Signature.Recv().Type(), fn.Signature.Recv().Type()) {
+					continue
+				}
+			}
+			if _, dup := cand[g]; dup {
+				cand[g] = nil // called twice from fn
+				continue
+			}
+			cand[g] = ci
+		}
+	}
+	if len(cand) == 0 {
+		return out
+	}
+	// any other use in the package disqualifies
+	for _, f := range c.allPkgFuncs(fn.Pkg) {
+		for _, b := range f.Blocks {
+			for _, in := range b.Instrs {
+				for _, op := range in.Operands(nil) {
+					g, ok := (*op).(*ssa.Function)
+					if !ok {
+						continue
+					}
+					if site, isCand := cand[g]; isCand {
+						if ci, isCall := in.(ssa.CallInstruction); isCall && site != nil && ci == site {
+							continue
+						}
+						cand[g] = nil
+					}
+				}
+			}
+		}
+	}
+	for g, site := range cand {
+		if site != nil {
+			out[g] = site
+		}
+	}
+	return out
+}
+
+// allPkgFuncs: every source function (with closures) of an SSA package.
+func (c *Ctx) allPkgFuncs(p *ssa.Package) []*ssa.Function {
+	return c.pkgFuncs(strings.TrimPrefix(p.Pkg.Path(), modPath+"/"))
+}
+
+// callsWithHelpers is calls over fn and its same-receiver local helpers.
+func (c *Ctx) callsWithHelpers(fn *ssa.Function, match func(cc *ssa.CallCommon) bool) []callSite {
+	out := c.calls(fn, match)
+	hs := c.localHelpers(fn, true)
+	var keys []*ssa.Function
+	for g := range hs {
+		keys = append(keys, g)
+	}
+	sort.Slice(keys, func(i, j int) bool { return keys[i].Pos() < keys[j].Pos() })
+	for _, g := range keys {
+		out = append(out, c.calls(g, match)...)
+	}
+	return out
+}
